@@ -12,6 +12,13 @@ Tie:    the `minimize` seam (`optyx.solvers.scipy_solver.minimize`) is spied: th
         points) with the Lean model `Py.Glue.buildSolverCache` — the definition `scipy_inputs_faithful`
         is about, itself driven by the glue tables regenerated from the source — and with the harness's
         own interpreter / dual numbers.
+        Fourth family (`check_open_side`): the SPELLING of an open side of a variable's bounds — None, or an
+        explicit infinity (np.inf, float('inf'), math.inf, np.float64, np.float32; negated for the lower side) — at
+        construction (`Variable(.., lb=, ub=)`) or assigned (`v.lb = ..`), in all four open / finite combinations,
+        mixed inside one problem, and re-spelled / removed / restored between solves of the same Problem; default
+        start only.  The start handed to SciPy must be finite and inside the declared box (and is compared with
+        `Py.initialPoint` of the bounds with every infinite side open), the bounds handed over must be the declared
+        ones, and the differential below must hold.
 Oracle: the property's differential — generated strictly convex problems (QP and smooth
         non-quadratic; equalities / inequalities / bounds, active or not) with a manufactured
         optimum x*, solved through optyx and by raw SciPy with the hand-written callables from the
@@ -152,7 +159,7 @@ def build_optyx(rng, p):
 
     n = p["n"]
     x = VectorVariable("x", n)
-    for v, (lb, ub) in zip(x, p["bounds"]):
+    for v, (lb, ub) in zip(x, spelled_bounds(p)):
         v.lb, v.ub = lb, ub
     Q, a, w, xs = p["Q"], p["a"], p["w"], p["xstar"]
     if p["full_q"]:
@@ -411,22 +418,30 @@ def check_problem(rng, p, rep, lines, metas, methods):
 
 
 def dump(p):
-    return {"n": p["n"], "Q": p["Q"].tolist(), "a": p["a"].tolist(), "w": p["w"].tolist(),
-            "xstar": p["xstar"].tolist(), "cons": [(a.tolist(), s, r) for a, s, r in p["cons"]],
-            "bounds": p["bounds"], "is_max": p["is_max"], "full_q": p["full_q"]}
+    d = {"n": p["n"], "Q": p["Q"].tolist(), "a": p["a"].tolist(), "w": p["w"].tolist(),
+         "xstar": p["xstar"].tolist(), "cons": [(a.tolist(), s, r) for a, s, r in p["cons"]],
+         "bounds": p["bounds"], "is_max": p["is_max"], "full_q": p["full_q"]}
+    if p.get("spell"):
+        d["spell"] = [list(t) for t in p["spell"]]     # how each side is written (names, not values: JSON-safe)
+    return d
 
 
 def undump(d):
-    return {"n": d["n"], "Q": np.array(d["Q"]), "a": np.array(d["a"]), "w": np.array(d["w"]),
-            "xstar": np.array(d["xstar"]), "cons": [(np.array(a), s, float(r)) for a, s, r in d["cons"]],
-            "bounds": [tuple(b) for b in d["bounds"]], "is_max": d["is_max"], "full_q": d["full_q"]}
+    p = {"n": d["n"], "Q": np.array(d["Q"]), "a": np.array(d["a"]), "w": np.array(d["w"]),
+         "xstar": np.array(d["xstar"]), "cons": [(np.array(a), s, float(r)) for a, s, r in d["cons"]],
+         "bounds": [tuple(b) for b in d["bounds"]], "is_max": d["is_max"], "full_q": d["full_q"]}
+    if d.get("spell"):
+        p["spell"] = [tuple(t) for t in d["spell"]]
+    return p
 
 
 def compare_lean(rep, lines, metas):
     outs = core.run_lean(lines)
     for (kind, real, p, method), model in zip(metas, outs):
         if kind == "x0":
-            want = "(" + " ".join(rat(v) for v in np.asarray(real).tolist()) + ")"
+            real = np.asarray(real, dtype=float).reshape(-1)
+            # a non-finite start has no rational spelling: reported as a mismatch below (never a crash of the run)
+            want = "(" + " ".join(rat(v) if np.isfinite(v) else repr(float(v)) for v in real.tolist()) + ")"
             # the model is exact; the code computes in doubles: compare numerically at 1 ulp scale
             from fractions import Fraction
             mv = [float(Fraction(t)) for t in model.strip("()").split()]
@@ -624,6 +639,236 @@ def check_magnitude_objective(rng, rep, methods):
         del sgn
     rep.nontrivial.add(hash(("magobj", n, k, scale, form, is_max)))
 
+# ------------------------------------------------------------------ fourth family: how an OPEN side of the bounds is written
+# `p["bounds"]` keeps the MEANING (None = open side); `p["spell"]` says how every side is written in the model:
+# "finite", "none", or one of the explicit infinities below (negated for a lower side).  A model that writes an open
+# side as ±inf is the same problem as one that writes None: SciPy users write bounds that way, and optyx itself hands
+# SciPy ±inf for None.  Only INACTIVE sides are opened / closed / re-spelled, so the manufactured optimum stays.
+
+INF_SPELLINGS = ["np.inf", "float", "math.inf", "np.float64", "np.float32"]
+
+
+def _inf_value(name):
+    import math
+
+    return {"np.inf": np.inf, "float": float("inf"), "math.inf": math.inf, "np.float64": np.float64("inf"),
+            "np.float32": np.float32("inf")}[name]
+
+
+def spelled_bounds(p):
+    """the bounds as the model writes them"""
+    if not p.get("spell"):
+        return list(p["bounds"])
+    out = []
+    for (lb, ub), (sl, su) in zip(p["bounds"], p["spell"]):
+        out.append((lb if sl == "finite" else None if sl == "none" else -_inf_value(sl),
+                    ub if su == "finite" else None if su == "none" else _inf_value(su)))
+    return out
+
+
+def gen_open_side_problem(rng):
+    """a manufactured-optimum problem whose variables have open / finite sides in all four combinations, every open
+    side written as None or as an explicit infinity (at least one explicit infinity per problem)"""
+    p = gen_problem(rng)
+    xs = p["xstar"]
+    sem = []
+    for i, (lb, ub) in enumerate(p["bounds"]):
+        if lb is None and ub is None:
+            # free variable: stays free, or gets inactive finite sides (one-sided and two-sided boxes)
+            if rng.random() < 0.35:
+                lb = float(xs[i] - rng.choice([1.0, 2.0, 0.25]))
+            if rng.random() < 0.35:
+                ub = float(xs[i] + rng.choice([1.0, 3.0, 0.25]))
+        else:
+            # inactive finite sides are opened with probability ½ (an active side decides the optimum: kept)
+            if lb != xs[i] and rng.random() < 0.5:
+                lb = None
+            if ub != xs[i] and rng.random() < 0.5:
+                ub = None
+        sem.append((lb, ub))
+    if all(lb is not None and ub is not None for lb, ub in sem):
+        i = rng.randrange(p["n"])
+        lb, ub = sem[i]
+        side = rng.choice([s for s, b in (("lb", lb), ("ub", ub)) if b != xs[i]])
+        sem[i] = (None, ub) if side == "lb" else (lb, None)
+    spell = [["finite" if lb is not None else rng.choice(["none"] + INF_SPELLINGS + ["np.inf"]),
+              "finite" if ub is not None else rng.choice(["none"] + INF_SPELLINGS + ["np.inf"])] for lb, ub in sem]
+    open_sides = [(i, k) for i, t in enumerate(spell) for k in (0, 1) if t[k] != "finite"]
+    if all(spell[i][k] == "none" for i, k in open_sides):
+        i, k = rng.choice(open_sides)
+        spell[i][k] = rng.choice(INF_SPELLINGS)
+    p["bounds"] = sem
+    p["spell"] = [tuple(t) for t in spell]
+    return p
+
+
+def gen_open_side_edit(rng, p):
+    """an assignment to ONE inactive side between two solves: a finite cap removed by assigning an infinity, a None
+    re-written as an infinity, an infinity re-written as None / another infinity / replaced by an inactive finite cap"""
+    xs = p["xstar"]
+    i = rng.randrange(p["n"])
+    sides = [k for k in (0, 1) if p["bounds"][i][k] is None or p["bounds"][i][k] != xs[i]]
+    k = rng.choice(sides)
+    now = p["spell"][i][k]
+    if now in ("finite", "none"):
+        to = rng.choice(INF_SPELLINGS)
+    else:
+        to = rng.choice(["none", "finite", "finite"] + [s for s in INF_SPELLINGS if s != now][:2])
+    val = None
+    if to == "finite":
+        val = float(xs[i] + (1 if k else -1) * rng.choice([1.0, 2.5, 0.5]))
+    return {"var": i, "side": "ub" if k else "lb", "spell": to, "value": val}
+
+
+def apply_open_side_edit(p, edit):
+    p2 = dict(p)
+    b, sp = [list(t) for t in p["bounds"]], [list(t) for t in p["spell"]]
+    k = 1 if edit["side"] == "ub" else 0
+    b[edit["var"]][k] = edit["value"] if edit["spell"] == "finite" else None
+    sp[edit["var"]][k] = edit["spell"]
+    p2["bounds"], p2["spell"] = [tuple(t) for t in b], [tuple(t) for t in sp]
+    return p2
+
+
+def build_optyx_scalars(p):
+    """the same model from scalar Variables whose bounds are given AT CONSTRUCTION"""
+    from optyx import Problem, Variable
+    from optyx.core.functions import exp
+
+    n = p["n"]
+    x = [Variable(f"s{i}", lb=lb, ub=ub) for i, (lb, ub) in enumerate(spelled_bounds(p))]
+    Q, a, w, xs = p["Q"], p["a"], p["w"], p["xstar"]
+    f = None
+    for i in range(n):
+        for j in range(i, n):
+            if Q[i, j] == 0:
+                continue
+            t = (0.5 * float(Q[i, i])) * (x[i] - float(a[i])) ** 2 if i == j else \
+                float(Q[i, j]) * ((x[i] - float(a[i])) * (x[j] - float(a[j])))     # Q symmetric: the two off-diagonal halves
+            f = t if f is None else f + t
+    for i in range(n):
+        if w[i] != 0:
+            f = f + float(w[i]) * (exp(x[i] - float(xs[i])) - (x[i] - float(xs[i])))
+    P = Problem()
+    if p["is_max"]:
+        P.maximize(-f)
+    else:
+        P.minimize(f)
+    for a_row, sense, rhs in p["cons"]:
+        lhs = sum((float(c) * x[i] for i, c in enumerate(a_row) if c != 0), 0.0 * x[0])
+        P.subject_to(lhs <= rhs if sense == "<=" else lhs >= rhs if sense == ">=" else lhs.eq(rhs))
+    return P, x
+
+
+def _open_side_solve(P, xv, p, orig, desc, phase, method, rep, lines, metas):
+    """one default-start solve of the model whose CURRENT bounds are `p`; `orig` + `desc` describe the whole history"""
+    f, g, h = hand_f(p)
+    fstar = f(p["xstar"])
+    n = p["n"]
+    written = [[repr(lb), repr(ub)] for lb, ub in spelled_bounds(p)]
+
+    def fail(what, **kw):
+        rep.oracle_failures.append({"what": what, "open_side": dict(desc, phase=phase), "problem": dump(orig),
+                                    "method": method, "bounds_as_written": written, **kw})
+
+    with MinimizeSpy() as spy:
+        with warnings.catch_warnings():
+            warnings.simplefilter("ignore")
+            try:
+                s = P.solve(method=method)
+            except Exception as ex:  # noqa: BLE001
+                fail(f"solve(method={method}) raised {type(ex).__name__}: {ex}"[:300])
+                return
+    rep.evaluations += 1
+    if not spy.calls:
+        rep.corr_mismatches.append({"what": "minimize was never called", "problem": dump(orig), "method": method})
+        return
+    kw = spy.calls[0]
+    used = kw["method"]
+    rep.histogram["openside:" + phase + ":" + used] = rep.histogram.get("openside:" + phase + ":" + used, 0) + 1
+    for (sl, su) in p["spell"]:
+        key = "openside-var:" + ("open" if sl != "finite" else "finite") + "/" + ("open" if su != "finite" else "finite")
+        rep.histogram[key] = rep.histogram.get(key, 0) + 1
+    try:
+        x0 = np.asarray(kw["x0"], dtype=float).reshape(-1)
+    except Exception:  # noqa: BLE001
+        x0 = np.full(n, np.nan)
+    x0_text = [repr(float(t)) for t in x0]
+    # ---- model: Py.initialPoint of the bounds with every infinite side open
+    lines.append("x0 (" + " ".join("(" + ("none" if lb is None else rat(lb)) + " " + ("none" if ub is None else rat(ub)) + ")"
+                                   for lb, ub in p["bounds"]) + ")")
+    metas.append(("x0", kw["x0"], orig, method))
+    # ---- the bounds handed over are the declared ones
+    if kw.get("bounds") is not None:
+        want_b = [(lb if lb is not None else -np.inf, ub if ub is not None else np.inf) for lb, ub in p["bounds"]]
+        got_b = [tuple(float(t) for t in b) for b in kw["bounds"]]
+        if got_b != want_b:
+            fail("bounds handed to SciPy differ from the declared bounds", got=[[repr(t) for t in b] for b in got_b])
+    # ---- the differential (the property)
+    raw = raw_solve(p, used, initial_point(p["bounds"]))
+    raw_gap = f(raw.x) - fstar
+    raw_ok = bool(raw.success) and feasible(p, raw.x, tol=5e-7) and raw_gap <= 1e-4 * (1 + abs(fstar))
+    rep.histogram["openside_raw_converged" if raw_ok else "openside_raw_not_converged"] = \
+        rep.histogram.get("openside_raw_converged" if raw_ok else "openside_raw_not_converged", 0) + 1
+    judged = False
+    if raw_ok:
+        xo = np.array([s.values.get(v.name, np.nan) for v in xv]) if s.values else np.full(n, np.nan)
+        finite = bool(np.all(np.isfinite(xo)))
+        gap = f(xo) - fstar if finite else np.inf
+        tol = max(1e-4 * (1 + abs(fstar)), 10 * abs(raw_gap))
+        obj_ok = finite and s.objective_value is not None and \
+            abs((-s.objective_value if p["is_max"] else s.objective_value) - f(xo)) <= 1e-7 * (1 + abs(f(xo)))
+        if not (s.status.name == "OPTIMAL" and finite and feasible(p, xo) and gap <= tol and obj_ok):
+            judged = True
+            fail("raw SciPy (hand-written callables, the same bounds, the documented start) converged to the manufactured "
+                 "optimum but optyx did not report it — an open side of the bounds is written as an explicit infinity",
+                 optyx_status=s.status.name, optyx_gap=repr(float(gap)), raw_gap=float(raw_gap),
+                 optyx_objective=repr(s.objective_value), x0_handed_to_scipy=x0_text, message=str(s.message)[:120])
+    # ---- the default start itself: finite and inside the declared box (whatever the solver made of it)
+    if not judged:
+        if len(x0) != n or not np.all(np.isfinite(x0)):
+            fail("the default starting point handed to SciPy is not finite", x0_handed_to_scipy=x0_text)
+        elif any((lb is not None and t < lb) or (ub is not None and t > ub) for t, (lb, ub) in zip(x0, p["bounds"])):
+            fail("the default starting point handed to SciPy lies outside the declared bounds", x0_handed_to_scipy=x0_text)
+
+
+def check_open_side(rng, p, build, edit, rep, lines, metas, methods, methods_after=None):
+    """solve with every method; assign the edit; solve again (same Problem object)"""
+    P, xv = build_optyx_scalars(p) if build == "ctor" else build_optyx(rng, p)
+    xv = list(xv)
+    desc = {"build": build, "edit": edit}
+    has_cons = bool(p["cons"])
+    n0 = len(rep.oracle_failures)
+    for method in methods:
+        if method == "L-BFGS-B" and has_cons:
+            continue
+        _open_side_solve(P, xv, p, p, desc, "first", method, rep, lines, metas)
+    if edit is not None and len(rep.oracle_failures) == n0:
+        p2 = apply_open_side_edit(p, edit)
+        v = xv[edit["var"]]
+        lb2, ub2 = spelled_bounds(p2)[edit["var"]]
+        if edit["side"] == "lb":
+            v.lb = lb2
+        else:
+            v.ub = ub2
+        for method in (methods if methods_after is None else methods_after):
+            if method == "L-BFGS-B" and has_cons:
+                continue
+            _open_side_solve(P, xv, p2, p, desc, "after-edit", method, rep, lines, metas)
+    rep.nontrivial.add(hash(("openside", build, p["n"], tuple(p["spell"]), str(edit))))
+
+
+def open_side_family(rng, rep, lines, metas, n_cases, methods, stop_at_first=False):
+    for _ in range(n_cases):
+        p = gen_open_side_problem(rng)
+        build = rng.choice(["ctor", "assign"])
+        edit = gen_open_side_edit(rng, p) if rng.random() < 0.7 else None
+        after = rng.sample(methods, 2)
+        check_open_side(rng, p, build, edit, rep, lines, metas, methods, methods_after=after)
+        if stop_at_first and rep.oracle_failures:
+            return
+
+
 # ------------------------------------------------------------------ third family: _build_solver_cache vs the model
 
 
@@ -815,6 +1060,8 @@ def run(ctx) -> core.Report:
     mrng = core.Rng(ctx["seed"] * 104729 + 7)      # own stream: the other families keep their inputs
     for i in range(120 if thorough else 24):
         check_magnitude_objective(mrng, rep, METHODS)
+    orng = core.Rng(ctx["seed"] * 15485867 + 11)   # own stream
+    open_side_family(orng, rep, lines, metas, 60 if thorough else 12, METHODS)
     gs = ctx["seed"] * 7919 + 13
     check_glue(core.Rng(gs), rep, 700 if thorough else 120, glue_seed=gs)
     # dispatch table of Problem.solve: exhaustive over method names × linearity, against the model
@@ -890,6 +1137,9 @@ def search(ctx, rep):
     check_glue(core.Rng(gs), r2, 400, glue_seed=gs)
     if r2.oracle_failures:
         return r2.oracle_failures[0]
+    open_side_family(core.Rng(ctx["seed"] * 15485867 + 12), r2, [], [], 150, METHODS, stop_at_first=True)
+    if r2.oracle_failures:
+        return r2.oracle_failures[0]
     for i in range(600):
         p = gen_problem(rng)
         check_problem(rng, p, r2, [], [], METHODS)
@@ -934,6 +1184,16 @@ def replay(payload) -> bool:
         return True
     p = undump(f["problem"])
     method = f.get("method", "auto")
+    if "open_side" in f:
+        # the whole history again: build (at construction / assigned), solve, assign the edit, solve
+        d = f["open_side"]
+        for seed in range(4):
+            rep = core.Report()
+            check_open_side(core.Rng(seed), p, d["build"], d.get("edit"), rep, [], [], METHODS)
+            if rep.oracle_failures:
+                print(rep.oracle_failures[0])
+                return False
+        return True
     if "edited_bounds" in f:
         # deterministic replay of a solve / edit-bound / solve history
         hf, _, _ = hand_f(p)
